@@ -54,6 +54,8 @@ class SymFS:
         return self._holds(z3.Or(*[g for g, m, t in ws]))
 
     def makedirs(self, p):
+        if self.isdir(p):
+            raise FileExistsError(17, 'File exists', p)          # os.makedirs without exist_ok
         g = self._effect('mkdir ' + os.path.basename(p))
         cur = p
         while cur and cur != os.path.dirname(cur):
@@ -110,12 +112,17 @@ class _LazyLines:
         self.fs, self.writes = fs, writes
 
     def __iter__(self):
+        lines = []
         for g, m, text in self.writes:
+            if m == 'w':
+                if lines and self.fs._holds(g):
+                    lines = []                       # open(..., 'w') truncates
+                continue
             if not text:
                 continue
             if self.fs._holds(g):
-                for ln in text.splitlines(True):
-                    yield ln
+                lines += text.splitlines(True)
+        return iter(lines)
 
 
 Cell = namedtuple('Cell', 'case tag')
@@ -214,22 +221,24 @@ def grid_axes(n1, n2):
     return xs, ys
 
 
-def scenario(grid, must_kind, n_fail_max):
-    """returns list of per-path outcomes of (run 1 with symbolic progress) ; (run 2 restart)"""
+def scenario(grid, must_kind, n_fail_max, n_runs=2):
+    """returns list of per-path outcomes of (runs 1 .. n_runs-1 interrupted, each with its own symbolic progress counters) ; (run n_runs: restart that is allowed to complete)"""
     n1, n2 = grid
     total = n1 * len(grid_axes(n1, n2)[1])
-    k = [z3.Int('k%d' % i) for i in range(total)]
+    S_MAX = 12
+    # run 1 counters keep their historical names k<i>; run r >= 2 counters are k<r>_<i>
+    K = {r: [z3.Int(('k%d' % i) if r == 1 else ('k%d_%d' % (r, i))) for i in range(total)] for r in range(1, n_runs)}
+    k = K[1]
     kh = z3.Int('k_header')
     fail = [z3.Bool('fail%d' % i) for i in range(total)]
-    S_MAX = 12
-    assumptions = [z3.And(ki >= 0, ki <= S_MAX) for ki in k] + [z3.And(kh >= 0, kh <= 40)]
+    assumptions = [z3.And(ki >= 0, ki <= S_MAX) for r in K for ki in K[r]] + [z3.And(kh >= 0, kh <= 40)]
     assumptions.append(z3.PbLe([(f, 1) for f in fail], n_fail_max))
-    outcomes = []
     steps_seen = {}
 
     def one_path():
         fs = SymFS()
-        executed = {1: [], 2: []}
+        executed = {r: [] for r in range(1, n_runs + 1)}
+        efflog = {}
         state = {'run': 1, 'case': None, 'step': 0, 'hstep': 0}
 
         def study(run_dir, x, y, x_name, y_name):
@@ -241,16 +250,18 @@ def scenario(grid, must_kind, n_fail_max):
             return {'value': np.asarray([x * 1000.0 + y])}
 
         def step_hook(what):
-            if state['run'] != 1:
+            r = state['run']
+            if r == n_runs:
                 fs.guard = z3.BoolVal(True)
                 return
             if state['case'] is None:
-                fs.guard = z3.BoolVal(True)          # bound: the interruption happens after the study header has been written
+                fs.guard = z3.BoolVal(True)          # bound: an interruption happens after the study / restart header has been written
                 state['hstep'] += 1
             else:
                 i = state['case']
-                fs.guard = k[i] > state['step']
-                if not state.get('failed_now'):
+                fs.guard = K[r][i] > state['step']
+                efflog.setdefault('%d:%d' % (r, i), []).append(what)
+                if r == 1 and not state.get('failed_now'):
                     steps_seen.setdefault(state['step'], what)       # effect names of a case whose study function returns normally
                 state['step'] += 1
 
@@ -260,8 +271,8 @@ def scenario(grid, must_kind, n_fail_max):
                 state['case'], state['step'], state['failed_now'] = c[0], 0, False
                 res.append(func(*c))
             state['case'] = None
-            if state['run'] == 1:
-                raise Killed()      # the interruption ends run 1 here (later effects of run 1 only append to the log)
+            if state['run'] < n_runs:
+                raise Killed()      # the interruption ends this run here (later effects of the run only append to the log)
             return res
         fs.step_hook = step_hook
         ns = make_env(fs, study, pool_hook)
@@ -270,26 +281,29 @@ def scenario(grid, must_kind, n_fail_max):
         inputs = (MI('x', 'X value', X0, float(n1) + DX, 'linear', mk([]), n1), MI('y', 'Y value', Y0, float(n2) + DY, 'linear', mk([MUST]), n2))
         total_cases = n1 * len(grid_axes(n1, n2)[1])
         out = {'exc2': None, 'results': None, 'exec1': None, 'exec2': None, 'total': total_cases}
-        try:
-            ns['multiprocessing_run']('/study', 'demo', study, inputs, force_restart=False, verbose=False, max_procs=4, perform_memory_check=False)
-        except Killed:
-            pass
-        state['run'], state['case'] = 2, None
-        fs.guard = z3.BoolVal(True)
-        try:
-            r2 = ns['multiprocessing_run']('/study', 'demo', study, inputs, force_restart=False, verbose=False, max_procs=4, perform_memory_check=False)
-            out['results'] = r2
-        except Killed:
-            out['exc2'] = 'Killed'
-        except Exception as e:
-            out['exc2'] = '%s: %s' % (type(e).__name__, str(e)[:120])
-        out['exec1'], out['exec2'] = executed[1], executed[2]
-        out['markers'] = {i: None for i in range(total_cases)}
+        for r in range(1, n_runs + 1):
+            state['run'], state['case'] = r, None
+            fs.guard = z3.BoolVal(True)
+            try:
+                rr = ns['multiprocessing_run']('/study', 'demo', study, inputs, force_restart=False, verbose=False, max_procs=4, perform_memory_check=False)
+                if r == n_runs:
+                    out['results'] = rr
+            except Killed:
+                if r == n_runs:
+                    out['exc2'] = 'Killed'
+            except Exception as e:
+                if r == 1:
+                    raise
+                out['exc2'] = 'run %d (restart): %s: %s' % (r, type(e).__name__, str(e)[:120])
+                break
+        out['exec1'], out['exec2'] = executed[1], executed[n_runs]
+        out['executed'] = executed
+        out['efflog'] = efflog
         out['steps'] = dict(steps_seen)
         return out
-    ex = Explorer(assumptions=assumptions, max_paths=20000, timeout_ms=5000, catch=())
+    ex = Explorer(assumptions=assumptions, max_paths=60000, timeout_ms=5000, catch=())
     paths = ex.run(one_path)
-    return paths, k, kh, fail, assumptions, steps_seen
+    return paths, K, kh, fail, assumptions, steps_seen
 
 
 def norm_result(r):
@@ -307,9 +321,19 @@ def norm_result(r):
     return int(cn), tuple(int(x) for x in idx), val
 
 
-def real_replay(md, grid, must_kind):
-    """reconstruct the interrupted directory with the REAL function (complete run, then remove every effect the model says did not happen), restart with the real function"""
-    cfg = {'grid': list(grid), 'limits': [X0, Y0, DX, DY, MUST], 'must_kind': must_kind, 'k': {k_[1:]: int(v) for k_, v in md.items() if k_.startswith('k') and k_[1:].isdigit()},
+def real_replay(md, grid, must_kind, n_runs=2, efflog=None):
+    """reconstruct the interrupted directory with the REAL function (complete run, then remove every effect the model says did not happen; once per interruption of the chain), then restart
+    with the real function"""
+    import re
+    runs = []
+    for r in range(1, n_runs):
+        kk = {}
+        for k_, v in md.items():
+            m = re.match(r'^k(\d+)$', k_) if r == 1 else re.match(r'^k%d_(\d+)$' % r, k_)
+            if m and not isinstance(v, bool):
+                kk[m.group(1)] = int(v)
+        runs.append({'k': kk, 'effects': {key.split(':')[1]: v for key, v in (efflog or {}).items() if key.startswith('%d:' % r)}})
+    cfg = {'grid': list(grid), 'limits': [X0, Y0, DX, DY, MUST], 'must_kind': must_kind, 'k': runs[0]['k'], 'runs': runs,
            'fail': [int(k_[4:]) for k_, v in md.items() if k_.startswith('fail') and v is True], 'steps': {str(a): b for a, b in STEPS.items()}}
     with tempfile.TemporaryDirectory(prefix='verif_c18_') as td:
         env = dict(os.environ)
@@ -320,6 +344,26 @@ def real_replay(md, grid, must_kind):
     return json.loads(p.stdout.split('@@RESULT@@')[-1]), ''
 
 
+def _path_of_model(items, md, A):
+    """the first recorded bad path whose path condition holds under the model (its effect log tells the replay which effects each interrupted run performed)"""
+    fix = []
+    for nm, v in md.items():
+        if isinstance(v, bool):
+            fix.append(z3.Bool(nm) == v)
+        elif isinstance(v, (int, Fr)) and '!' not in nm:
+            try:
+                fix.append(z3.Int(nm) == int(v))
+            except Exception:
+                pass
+    for it in items:
+        so = solve.mk_solver(10000)
+        so.add(fix)
+        so.add(it[0])
+        if so.check() == z3.sat:
+            return it
+    return items[0] if items else None
+
+
 STEPS = {}
 
 
@@ -328,11 +372,12 @@ def steps_seen_global(steps):
 
 
 
-def job_restart(grid, must_kind, n_fail_max):
-    paths, k, kh, fail, A, steps = scenario(grid, must_kind, n_fail_max)
+def job_restart(grid, must_kind, n_fail_max, n_runs=2):
+    paths, K, kh, fail, A, steps = scenario(grid, must_kind, n_fail_max, n_runs)
+    k = K[1]
     STEPS.update(steps)
     results = []
-    tag = 'grid %dx%d, must_include as %s, <= %d failing case(s)' % (grid[0], grid[1], must_kind, n_fail_max)
+    tag = 'grid %dx%d, must_include as %s, <= %d failing case(s), %d interruption(s)' % (grid[0], grid[1], must_kind, n_fail_max, n_runs - 1)
     if not paths:
         raise RuntimeError('no paths')
     # uninterrupted reference result per case: x*1000 + y on the grid the code builds
@@ -345,7 +390,7 @@ def job_restart(grid, must_kind, n_fail_max):
         npaths += 1
         pc = z3.And(*p.pc) if p.pc else z3.BoolVal(True)
         if o['exc2'] is not None:
-            bad['raises'].append((pc, o['exc2']))
+            bad['raises'].append((pc, o['exc2'], o['efflog']))
             continue
         res = [norm_result(r) for r in (o['results'] or [])]
         total = o['total']
@@ -356,31 +401,37 @@ def job_restart(grid, must_kind, n_fail_max):
         xs, ys = grid_axes(grid[0], grid[1])
         want = {(i, j): xs[i] * 1000.0 + ys[j] for i in range(len(xs)) for j in range(len(ys))}
         if len(res) != total or set(seen) != set(want) or any(len(v) != 1 for v in seen.values()):
-            bad['count'].append((pc, 'got %d results for %d cases: indices %s' % (len(res), total, sorted(seen))))
+            bad['count'].append((pc, 'got %d results for %d cases: indices %s' % (len(res), total, sorted(seen)), o['efflog']))
         else:
             failed1 = set()
             wrong = [(idx, v[0][1], want[idx]) for idx, v in seen.items() if v[0][1] is None or abs(v[0][1] - want[idx]) > 1e-9]
             if wrong:
-                bad['value'].append((pc, 'wrong / missing values %r' % wrong[:3]))
+                bad['value'].append((pc, 'wrong / missing values %r' % wrong[:3], o['efflog']))
             # case numbers: flat index of the grid position
             wrongno = [(idx, v[0][0]) for idx, v in seen.items() if v[0][0] != idx[0] * len(ys) + idx[1]]
             if wrongno:
-                bad['caseno'].append((pc, 'case_number does not match the grid index: %r' % wrongno[:4]))
-        # cases executed in run 2 must not have completed in run 1: completed = marker and result file written and not failing
-        s_done = max(steps_seen_global(steps)) + 1
+                bad['caseno'].append((pc, 'case_number does not match the grid index: %r' % wrongno[:4], o['efflog']))
+        # a case executed in run r >= 2 must not have completed in an earlier run q (completed: every effect of the case in run q happened, and the study function did not raise)
         re_ = []
-        for i in o['exec2']:
-            re_.append(z3.And(k[i] >= s_done, z3.Not(fail[i])))
+        ex_ = o['executed']
+        for r in range(2, n_runs + 1):
+            for i in ex_[r]:
+                for q in range(1, r):
+                    if i in ex_[q]:
+                        n_eff = len(o['efflog'].get('%d:%d' % (q, i), []))
+                        done = K[q][i] >= n_eff
+                        re_.append(z3.And(done, z3.Not(fail[i])) if q == 1 else done)
         if re_:
-            bad['reexec'].append((z3.And(pc, z3.Or(*re_)), 'a case completed in run 1 is executed again in run 2 (executed %r)' % o['exec2']))
+            bad['reexec'].append((z3.And(pc, z3.Or(*re_)), 'a case completed in an earlier run is executed again (executed per run %r)' % {r: v for r, v in ex_.items()}, o['efflog']))
 
     def mk(key, title):
         items = bad[key]
-        goal = z3.Not(z3.Or(*[c for c, _ in items])) if items else z3.BoolVal(True)
-        notes = sorted({n for _, n in items})[:4]
+        goal = z3.Not(z3.Or(*[it[0] for it in items])) if items else z3.BoolVal(True)
+        notes = sorted({it[1] for it in items})[:4]
 
         def rp(md):
-            r, err = real_replay(md, grid, must_kind)
+            it = _path_of_model(items, md, A)
+            r, err = real_replay(md, grid, must_kind, n_runs, it[2] if it else None)
             if r is None:
                 return False, err
             detail = 'model %s ; REAL multiprocessing_run restart on the reconstructed directory: %s' % ({a: str(b) for a, b in md.items() if a.startswith(('k', 'fail')) and (b is True or (not isinstance(b, bool)))}, json.dumps(r)[:500])
@@ -389,13 +440,13 @@ def job_restart(grid, must_kind, n_fail_max):
             if key == 'caseno':
                 return bool(r['caseno_wrong']), detail
             if key == 'count':
-                return r['restart_exception'] is None and not r['one_per_case'], detail
+                return not r['one_per_case'], detail
             if key == 'value':
                 return r['restart_exception'] is None and bool(r['value_wrong']), detail
             if key == 'reexec':
                 return bool(r['reexecuted_completed']), detail
             return True, detail
-        results.append(discharge(Obligation('%s: %s' % (tag, title), goal, A, with_axioms=False, with_dens=False, replay=rp, key='%s:%s' % (key, must_kind),
+        results.append(discharge(Obligation('%s: %s' % (tag, title), goal, A, with_axioms=False, with_dens=False, replay=rp, key='%s:%s%s' % (key, must_kind, '' if n_runs == 2 else ':chain%d' % (n_runs - 1)),
                                             info={'paths': npaths, 'witness_notes': notes, 'effects_per_case': {str(s): w for s, w in sorted(steps.items())}})))
     mk('raises', 'the restart (force_restart=False) completes without raising, for every kill point of every case and of the header')
     mk('count', 'the restart returns exactly one result per case')
@@ -411,20 +462,24 @@ def main():
     jobs = []
     if TIER == 'thorough':
         cfgs = [((1, 1), 'list', 1), ((1, 1), 'tuple', 0), ((2, 1), 'list', 1), ((2, 1), 'tuple', 0), ((3, 1), 'list', 0), ((2, 2), 'list', 0)]
+        chains = [((1, 1), 'list', 1, 3), ((1, 1), 'tuple', 0, 3), ((2, 1), 'list', 0, 3), ((1, 1), 'list', 0, 4)]
     else:
         cfgs = [((1, 1), 'list', 1), ((1, 1), 'tuple', 0), ((2, 1), 'list', 0)]
+        chains = [((1, 1), 'list', 1, 3)]
     for g, mk_, nf in cfgs:
         jobs.append((job_restart, {'grid': g, 'must_kind': mk_, 'n_fail_max': nf}))
+    for g, mk_, nf, nr in chains:
+        jobs.append((job_restart, {'grid': g, 'must_kind': mk_, 'n_fail_max': nf, 'n_runs': nr}))
     meta = {
         'explanation': 'multiprocessing_run is extracted from the current source and executed twice on an in-memory file system (os, open, np.save/savez/load, psutil, the pool are stubs; the pool runs the real '
                        'closure func_to_use inline). In run 1 every file-system effect of case i carries the guard k_i > s (s = index of the effect: log append, mkdir, study call, success marker, log append, '
                        'result file), k_i a symbolic integer - this covers every kill point and every interleaving of workers because cases touch disjoint files; the header has its own counter; fail_i makes '
                        'the study function raise. Run 2 restarts on that symbolic file system; every existence/content query forks on its guard. z3 decides per obligation that no feasible (k, fail) reaches a bad outcome; '
                        'a model is replayed on the REAL function: the interrupted directory is reconstructed from a complete real run by removing the effects that did not happen, then restarted for real.',
-        'bounds': 'grids %s; one interruption; <= 1 failing case; list and tuple must-include values.' % [c[0] for c in cfgs],
+        'bounds': 'grids %s with one interruption; chains %s (grid, must kind, failing cases, runs) with two (thorough: up to three) successive interruptions, each restart with its own symbolic progress counters; <= 1 failing case; list and tuple must-include values.' % ([c[0] for c in cfgs], chains),
         'outside': 'real process kills and partial writes inside one write call; pathos; pool sizes other than 4 (they only enter through chunking).',
         'assumptions': ['cases touch disjoint files (read off the source: index_<idx>_run_<n> directories)'],
-        'stubs': ['os, open, np.save/savez/load, psutil, multiprocessing.Pool'],
+        'stubs': ['os, open (mode w truncates, makedirs raises FileExistsError on an existing directory), np.save/savez/load, psutil, multiprocessing.Pool'],
     }
     solve.run_check(PID, jobs, meta)
 
